@@ -918,9 +918,10 @@ impl Reader {
         // remove changes until first_sn.
         writer_proxy.irrelevant_changes_up_to(heartbeat.first_sn);
 
+        let my_guid = this.my_guid;
         let marker_moved = this
           .acquire_the_topic_cache_guard()
-          .mark_reliably_received_before(writer_guid, writer_proxy.all_ackable_before());
+          .mark_reliably_received_before(my_guid, writer_guid, writer_proxy.all_ackable_before());
         if marker_moved {
           this.notify_cache_change();
         }
@@ -1126,9 +1127,17 @@ impl Reader {
     }
 
     // Get the topic cache and mark progress
-    let marker_moved = self
-      .acquire_the_topic_cache_guard()
-      .mark_reliably_received_before(writer_guid, all_ackable_before);
+    let my_guid = self.my_guid;
+    let marker_moved = {
+      let mut tc = self.acquire_the_topic_cache_guard();
+      // What the Writer has declared irrelevant to us may be in the cache on
+      // behalf of another Reader of this participant. Our DataReader must skip it.
+      tc.mark_irrelevant_to_reader(my_guid, writer_guid, gap.gap_start, gap.gap_list.base());
+      for seq_num in gap.gap_list.iter() {
+        tc.mark_irrelevant_to_reader(my_guid, writer_guid, seq_num, seq_num.plus_1());
+      }
+      tc.mark_reliably_received_before(my_guid, writer_guid, all_ackable_before)
+    };
 
     // Receiving a GAP could make a Reliable stream.
     // E.g. we had #2, but were missing #1. Now GAP says that #1 does not exist.
@@ -1205,7 +1214,7 @@ impl Reader {
     // Mark seqnums as received if not behaving statelessly
     if !self.like_stateless {
       self.matched_writer(writer_guid).map(|wp| {
-        tc.mark_reliably_received_before(writer_guid, wp.all_ackable_before());
+        tc.mark_reliably_received_before(self.my_guid, writer_guid, wp.all_ackable_before());
         // Here we do not need to notify waiting DataReader, because
         // the upper call level from here does it.
       });
